@@ -1,6 +1,9 @@
 use crate::streaming::personal_access_tokens::personal_access_token::PersonalAccessToken;
 use crate::streaming::utils::crypto;
+#[cfg(not(kani))]
 use ahash::AHashMap;
+#[cfg(kani)]
+use iggy::verif_model::map::AHashMap;
 use iggy::models::user_status::UserStatus;
 use iggy::models::{permissions::Permissions, user_info::UserId};
 use iggy::users::defaults::*;
